@@ -39,7 +39,7 @@ ASSUMPTIONS = [
     "Taillard text is written by the harness in the documented layout (header line, one line per job of machine/duration pairs)",
 ]
 BOUNDS = {
-    "quick": "views+round trips: K3, K4[seed%4::4], M3 small, probes, 8 bundled benchmark instances as loaded (thorough: all 162); schedules: K3 NF + K4 NF[seed%4::4] all complete histories; sequences: K3 NF, K4 NF[seed%4::4], 2x2/recirculation probes - all permutation tuples; immutability: K3[seed%8::8] + probes",
+    "quick": "views+round trips: K3, K4[seed%4::4], M3 small, probes, K3[seed%4::4] with every positive duration shifted beyond 2**24 (thorough: all of K3), 8 bundled benchmark instances as loaded (thorough: all 162); schedules: K3 NF + K4 NF[seed%4::4] all complete histories; sequences: K3 NF, K4 NF[seed%4::4], 2x2/recirculation probes - all permutation tuples; immutability: K3[seed%8::8] + probes",
     "thorough": "views: K3, K4, M3, NF5 slice, probes; schedules/sequences: K3 NF, K4 NF, NF5 slice (<= 20000 tuples per instance); immutability: K3, K4[::16], probes",
 }
 
@@ -49,6 +49,10 @@ def cases(tier, seed):
     k4 = list(F.sliced(F.K4(), seed % 4, 4)) if tier == "quick" else list(F.K4())
     for s in itertools.chain(F.K3(), k4, F.M3_small(), F.P_ALL):
         out.append(("views", s))
+    # the same small shapes with durations beyond float32's exact integers
+    # (2**24): the integer-valued views must stay exact whatever the padded
+    # float32 arrays can hold
+    out += [("views", big(s)) for s in (F.sliced(F.K3(), seed % 4, 4) if tier == "quick" else F.K3())]
     k4nf = list(F.sliced(F.K4_nf(), seed % 4, 4)) if tier == "quick" else list(F.K4_nf())
     nf = list(F.K3_nf()) + k4nf + [p for p in F.P_ALL if not F.is_flexible(p) and F.n_ops(p) <= 6]
     if tier != "quick":
@@ -68,6 +72,10 @@ def cases(tier, seed):
     for i in range(0, len(bench), 8):
         out.append(("benchmarks", tuple(bench[i : i + 8])))
     return out
+
+
+def big(spec):
+    return tuple(tuple((ms, d + 2**24 + 1 if d > 0 else 0) for ms, d in job) for job in spec)
 
 
 BENCHMARKS = (
